@@ -196,7 +196,7 @@ func c18Run(c *runCtx, r *rng, ci, workers, procs, cacheSize, steps int) {
 	rc.SetUserIdentity(iden)
 	// shared bugs exist before the workers start, and are not loaded: the cache is reopened
 	var shared []entity.Id
-	for i := 0; i < 3; i++ {
+	for i := 0; i < 5; i++ {
 		b, _, err := rc.Bugs().New(fmt.Sprintf("shared %d", i), "created before the workers")
 		if err != nil {
 			panic(err)
@@ -218,7 +218,59 @@ func c18Run(c *runCtx, r *rng, ci, workers, procs, cacheSize, steps int) {
 	// each burst (everybody returned) the listing must say what the bug says. Overlapping
 	// notifications that store an older excerpt last show here.
 	var burstOps []entity.Id
+	var burstAcks []c18Ack
 	var burstMu sync.Mutex
+	var mu sync.Mutex
+	var acks []c18Ack
+	var problems []string
+	attempted := map[entity.Id]bool{}
+	// ---- first resolves: two bugs nobody has loaded yet are resolved by all workers at the same moment
+	// (each must get the one loaded instance), edited, and committed by every other worker. Whatever an
+	// edit call acknowledged is checked against the stored history like the edits of the main phase.
+	if cacheSize == 0 {
+		for _, target := range shared[3:5] {
+			var fw sync.WaitGroup
+			gate := make(chan struct{})
+			for w := 0; w < workers; w++ {
+				fw.Add(1)
+				go func(w int) {
+					defer fw.Done()
+					defer func() { recover() }()
+					<-gate
+					b, err := rc.Bugs().Resolve(target)
+					if err != nil {
+						return
+					}
+					_, op, err := b.AddComment(fmt.Sprintf("first resolve by %d", w))
+					if op != nil {
+						mu.Lock()
+						attempted[op.Id()] = true
+						mu.Unlock()
+					}
+					if err != nil || op == nil {
+						return
+					}
+					pending := true
+					if w%2 == 1 {
+						pending = b.CommitAsNeeded() != nil
+					}
+					mu.Lock()
+					acks = append(acks, c18Ack{w, target, op.Id(), pending})
+					mu.Unlock()
+				}(w)
+			}
+			close(gate)
+			fdone := make(chan struct{})
+			go func() { fw.Wait(); close(fdone) }()
+			select {
+			case <-fdone:
+			case <-time.After(25 * time.Second):
+				c.violation(-1, "C18/deadlock", "simultaneous first Resolve calls did not return ("+tag+")", map[string]any{"conf": tag})
+				return
+			}
+		}
+		c.count("first-resolves")
+	}
 	if cacheSize == 0 {
 		bursts := c.pick(40, 200)
 		target := shared[0]
@@ -232,9 +284,13 @@ func c18Run(c *runCtx, r *rng, ci, workers, procs, cacheSize, steps int) {
 					defer func() { recover() }()
 					<-gate
 					if b, err := rc.Bugs().Resolve(target); err == nil {
-						if _, op, _ := b.AddComment(fmt.Sprintf("burst %d by %d", round, w)); op != nil {
+						_, op, err := b.AddComment(fmt.Sprintf("burst %d by %d", round, w))
+						if op != nil {
 							burstMu.Lock()
 							burstOps = append(burstOps, op.Id())
+							if err == nil {
+								burstAcks = append(burstAcks, c18Ack{w, target, op.Id(), false})
+							}
 							burstMu.Unlock()
 						}
 					}
@@ -257,14 +313,13 @@ func c18Run(c *runCtx, r *rng, ci, workers, procs, cacheSize, steps int) {
 			}
 		}
 		c.countN("bursts", bursts)
+		// the edits of the bursts were acknowledged: the commit of the bug stores them all
 		if bc, err := rc.Bugs().Resolve(target); err == nil {
-			bc.CommitAsNeeded()
+			if bc.CommitAsNeeded() == nil {
+				acks = append(acks, burstAcks...)
+			}
 		}
 	}
-	var mu sync.Mutex
-	var acks []c18Ack
-	var problems []string
-	attempted := map[entity.Id]bool{}
 	for _, id := range burstOps {
 		attempted[id] = true
 	}
